@@ -14,6 +14,7 @@ import (
 	"runtime/debug"
 	"sort"
 	"strings"
+	"sync/atomic"
 
 	"github.com/dominant-strategies/go-quai/common"
 	"github.com/dominant-strategies/go-quai/core/rawdb"
@@ -541,7 +542,9 @@ func (sc *scen) crashAt(rel int64) (world, bool) {
 		return nil, false
 	}
 	ctl.ArmAfter(rel)
+	atomic.StoreInt32(&dying, 1)
 	exec(n, sc.act.body) // errors and panics after the crash point are those of a dead process
+	atomic.StoreInt32(&dying, 0)
 	ctl.Crash()
 	w2, err := w.sever(n)
 	if err != nil {
@@ -938,6 +941,9 @@ func (sc *scen) recoverCrashed(w world, j int64) (world, bool) {
 		return nil, false
 	}
 	ctl := hnet.NewFaultCtl(j)
+	// re-deliveries of a recovery that is being killed are not evidence of what a surviving node needs
+	retriesBefore := atomic.LoadInt64(&redeliveries)
+	defer func() { atomic.StoreInt64(&redeliveries, retriesBefore) }()
 	var n *hnet.Net
 	func() {
 		defer func() {
